@@ -32,6 +32,7 @@ class Harness:
     stubs: list = []
     check_defined = True
     cost = 1.0
+    mod_mode = None      # "fork" | "disj" (None: engine default); how `x % period` is encoded
     exact_validation = True
 
     def configs(self, tier):
@@ -160,6 +161,8 @@ def _run_task(hmod, hname, cfg, tier, seed, t0):
     h = getattr(importlib.import_module(hmod), hname)()
     T.update(getattr(h, "tier_overrides", {}).get(tier, {}))
     loader.start_monitor()
+    if h.mod_mode:
+        core.MOD_MODE = h.mod_mode
     L = loader.Loaded(overrides=h.overrides(cfg))
 
     def fn():
